@@ -3,7 +3,7 @@
 //!   sbx_service run <timeout_ms> <mem_limit_bytes> <gap_ms> <op>...
 //!
 //! ops: add:<id> | panic | sleep:<id> (sleeps 4x the time limit, then answers) | oom
-//!      (allocates twice the memory limit) | exit | big:<id> (1 MiB payload)
+//!      (allocates twice the memory limit) | exit | big:<id> (1 MiB payload) | huge:<id> (payload larger than the memory limit)
 //! prints one line per request: `ok <id>` | `panic` | `timeout` | `crashed` | `other <error>` | `hang`
 //! One sandbox per process (the sandbox installs a ctrl-c handler, which can be done once).
 use rink_sandbox::{Alloc, Error, Sandbox, Service};
@@ -82,6 +82,8 @@ fn main() {
                 "oom" => Req::Oom(limit * 2),
                 "exit" => Req::Exit,
                 "big" => Req::Big(id, "x".repeat(1 << 20)),
+                // a request that the child cannot even read: larger than its memory limit
+                "huge" => Req::Big(id, "x".repeat(limit + (1 << 20))),
                 _ => { println!("bad-op"); continue; }
             };
             let fut = sandbox.execute(req);
